@@ -12,6 +12,7 @@ import (
 	"syscall"
 
 	"verifsim/internal/checks"
+	"verifsim/internal/corpus"
 )
 
 func usage() {
@@ -24,6 +25,15 @@ func main() {
 		usage()
 	}
 	prop := os.Args[1]
+	if prop == "render" { // development aid: vcheck render <grammar-id> <pkg>
+		for _, g := range append(corpus.Fixed(), corpus.Awkward()...) {
+			if g.ID == os.Args[2] {
+				fmt.Print(g.Render(os.Args[3], "simwork/act"))
+				return
+			}
+		}
+		os.Exit(2)
+	}
 	tier := os.Args[2]
 	replay := ""
 	if tier == "--replay" {
@@ -66,6 +76,8 @@ func run(c *checks.Ctx) (code int) {
 	switch c.Prop {
 	case "C11":
 		err = checks.RunC11(c)
+	case "C09":
+		err = checks.RunC09(c)
 	default:
 		fmt.Println("unknown property", c.Prop)
 		return checks.ExitHarness
